@@ -74,6 +74,7 @@ pub fn run_cases<F: FnMut(&[&str], &mut dyn FnMut(String))>(mut f: F) {
         if line.is_empty() || line.starts_with('#') {
             continue;
         }
+        next_case();
         let fields: Vec<&str> = line.split('\t').collect();
         let mut emit = |s: String| {
             out.write_all(s.as_bytes()).unwrap();
@@ -82,4 +83,32 @@ pub fn run_cases<F: FnMut(&[&str], &mut dyn FnMut(String))>(mut f: F) {
         f(&fields, &mut emit);
     }
     out.flush().unwrap();
+}
+
+/// Watchdog: if one case runs longer than `secs`, the case line is written to <out>.hang and the
+/// process exits with status 3 (reported by ./check as a hang of that case).
+static CASE_NO: std::sync::atomic::AtomicUsize = std::sync::atomic::AtomicUsize::new(0);
+pub fn start_watchdog(secs: u64) {
+    std::thread::spawn(move || {
+        let mut last = usize::MAX;
+        let mut since = std::time::Instant::now();
+        loop {
+            std::thread::sleep(std::time::Duration::from_millis(500));
+            let cur = CASE_NO.load(std::sync::atomic::Ordering::Relaxed);
+            if cur != last {
+                last = cur;
+                since = std::time::Instant::now();
+            } else if since.elapsed().as_secs() >= secs {
+                let args: Vec<String> = std::env::args().collect();
+                if args.len() > 2 {
+                    let _ = std::fs::write(format!("{}.hang", args[2]), format!("{}", cur));
+                }
+                eprintln!("HANG at case {}", cur);
+                std::process::exit(3);
+            }
+        }
+    });
+}
+pub fn next_case() {
+    CASE_NO.fetch_add(1, std::sync::atomic::Ordering::Relaxed);
 }
